@@ -66,6 +66,7 @@ pub fn samples() -> Vec<Value> {
 }
 
 pub fn run_c10(r: &mut Report) {
+    random_documents(r);
     for v in samples().into_iter().chain(char_class_samples()) {
         let got = canon(&v);
         let mut exp = vec![];
@@ -90,7 +91,47 @@ pub fn run_c10(r: &mut Report) {
     }
 }
 
+/// pseudo-random documents (seeded from VERIF_SEED): canonical form equals the independent reference writer, parses back to the
+/// same value, and no two different values share a canonical form; documents containing a non-integer number are rejected
+pub fn random_documents(r: &mut Report) {
+    struct Rng(u64);
+    impl Rng { fn next(&mut self) -> u64 { let mut x = self.0; x ^= x << 13; x ^= x >> 7; x ^= x << 17; self.0 = x; x } fn below(&mut self, n: u64) -> u64 { self.next() % n } }
+    let seed: u64 = std::env::var("VERIF_SEED").ok().and_then(|s| s.parse().ok()).unwrap_or(0);
+    let mut rng = Rng(0xD1B54A32D192ED03 ^ seed.wrapping_mul(0x9E3779B97F4A7C15) | 1);
+    let pool: Vec<char> = "ab\\\"/\n\t\r\u{0}\u{1f} \u{7f}\u{80}\u{e9}\u{2028}\u{ffff}\u{1F600}n,:[]{}".chars().collect();
+    fn string(rng: &mut Rng, pool: &[char]) -> String { let n = rng.below(6); (0..n).map(|_| pool[rng.below(pool.len() as u64) as usize]).collect() }
+    fn value(rng: &mut Rng, pool: &[char], depth: u32, floats: bool) -> Value {
+        match rng.below(if depth == 0 { 5 } else { 7 }) {
+            0 => Value::Null, 1 => json!(rng.below(2) == 0),
+            2 => match rng.below(6) { 0 => json!(i64::MIN), 1 => json!(u64::MAX), 2 => json!(-(rng.below(1000) as i64)), 3 if floats => json!(1.5), _ => json!(rng.below(100000)) },
+            3 | 4 => json!(string(rng, pool)),
+            5 => { let n = rng.below(4); Value::Array((0..n).map(|_| value(rng, pool, depth - 1, floats)).collect()) }
+            _ => { let n = rng.below(4); let mut m = serde_json::Map::new(); for _ in 0..n { m.insert(string(rng, pool), value(rng, pool, depth - 1, floats)); } Value::Object(m) }
+        }
+    }
+    fn has_float(v: &Value) -> bool { match v { Value::Number(n) => n.as_i64().is_none() && n.as_u64().is_none(), Value::Array(a) => a.iter().any(has_float), Value::Object(o) => o.values().any(has_float), _ => false } }
+    let n = crate::util::scale(1500, 20000);
+    let mut seen: std::collections::HashMap<Vec<u8>, Value> = std::collections::HashMap::new();
+    let mut bad = 0;
+    for i in 0..n {
+        let v = value(&mut rng, &pool, 3, i % 5 == 0);
+        let got = canon(&v);
+        let mut exp = vec![];
+        let ok = if has_float(&v) { matches!(&got, Err(e) if e.starts_with("Err")) }
+                 else { reference(&v, &mut exp).is_ok() && got.as_ref().ok() == Some(&exp) && serde_json::from_slice::<Value>(&exp).ok().as_ref() == Some(&v) };
+        let mut collision = false;
+        if let Ok(b) = &got { if let Some(prev) = seen.get(b) { if *prev != v { collision = true; } } else { seen.insert(b.clone(), v.clone()); } }
+        if !ok || collision {
+            bad += 1;
+            if bad <= 5 { r.case("random-document", json!({"index": i, "seed": seed, "value": v, "collision": collision}), "reference bytes / rejected if a non-integer occurs; no collision",
+                                 format!("{:?}", got.as_ref().map(|b| String::from_utf8_lossy(b).to_string())), false); }
+        }
+    }
+    r.case("random-documents", json!({"documents": n, "seed": seed}), "all as the reference", format!("{} failures", bad), bad == 0);
+}
+
 pub fn run_c05(r: &mut Report) {
+    random_documents(r);
     crate::c01::tamper_every_leaf(r);
     // pairwise distinct values have pairwise distinct canonical encodings
     let s = samples();
